@@ -787,13 +787,33 @@ func ruleR059(c *Ctx) {
 	for _, gi := range c.generatorFuncs(a, fwd) {
 		info := gi.pkg.TypesInfo
 		gname := declName(gi.pkg, gi.decl)
+		// variables that may hold the try child itself: guarded := tryFunc
+		tryAlias := map[types.Object]bool{}
+		ast.Inspect(gi.decl.Body, func(x ast.Node) bool {
+			as, ok := x.(*ast.AssignStmt)
+			if !ok || len(as.Lhs) != len(as.Rhs) {
+				return true
+			}
+			for i, r := range as.Rhs {
+				if obj := gi.childObj(info, r); obj != nil && gi.field[obj] == "TryCatch.Try" {
+					if id, ok := ast.Unparen(as.Lhs[i]).(*ast.Ident); ok && id.Name != "_" {
+						tryAlias[info.ObjectOf(id)] = true
+					}
+				}
+			}
+			return true
+		})
 		ast.Inspect(gi.decl.Body, func(x ast.Node) bool {
 			call, ok := x.(*ast.CallExpr)
 			if !ok {
 				return true
 			}
 			obj := gi.childObj(info, call.Fun)
-			if obj == nil || gi.field[obj] != "TryCatch.Try" {
+			isTry := obj != nil && gi.field[obj] == "TryCatch.Try"
+			if id, ok := ast.Unparen(call.Fun).(*ast.Ident); ok && tryAlias[info.ObjectOf(id)] {
+				isTry = true
+			}
+			if !isTry {
 				return true
 			}
 			n++
